@@ -153,17 +153,28 @@ def _flag(ctx: Ctx, c: Collector) -> None:
 
 
 def _global_step(ctx: Ctx, c: Collector) -> None:
+    """enable() replaces the module attribute scheduler.step: whoever performs the step (sim_process, or a helper that a later
+    change split off it) must look the name up as a module global at call time."""
+    import ast as _ast
     m = ctx.prog.modules["mosaik.scheduler"]
     st = symtable.symtable(m.src, m.path, "exec")
-    ok = False
-    for ch in st.get_children():
-        if ch.get_name() == "sim_process":
-            try:
-                sym = ch.lookup("step")
-                ok = sym.is_global() and not sym.is_local() and not sym.is_parameter()
-            except KeyError:
-                ok = False
-    c.check(ok, "wrapper", "mosaik.scheduler.sim_process", "`step` resolves as a module global (the debug wrapper is actually called)", "sim_process does not look `step` up as a module global: replacing scheduler.step has no effect", "")
+    tabs = {ch.get_name(): ch for ch in st.get_children() if ch.get_type() == "function"}
+    callers = []
+    for node in m.tree.body:
+        if isinstance(node, (_ast.FunctionDef, _ast.AsyncFunctionDef)) and node.name != "step":
+            if any(isinstance(n, _ast.Call) and isinstance(n.func, _ast.Name) and n.func.id == "step" for n in _ast.walk(node)):
+                callers.append(node.name)
+    bad = []
+    for nm in callers:
+        try:
+            sym = tabs[nm].lookup("step")
+            if not (sym.is_global() and not sym.is_local() and not sym.is_parameter()):
+                bad.append(nm)
+        except KeyError:
+            bad.append(nm)
+    ok = bool(callers) and not bad
+    c.check(ok, "wrapper", "mosaik.scheduler.sim_process", "`step` resolves as a module global (the debug wrapper is actually called)",
+            (f"{', '.join(bad)} does not look `step` up as a module global" if bad else "no function of mosaik.scheduler calls `step` by its module-level name") + ": replacing scheduler.step has no effect", "")
 
 
 from ..report import VIOLATED, DISCHARGED  # noqa: E402
